@@ -630,7 +630,10 @@ def struct_dump(k) -> tuple:
             par = ("?", None)
         hlp = n.help
         if hlp is not None:
-            hlp = "\n".join(x.rstrip() for x in hlp.split("\n")).rstrip()
+            # help texts are compared modulo the leading / trailing blanks of their lines: the indentation INSIDE a help
+            # text is significant for the parser (relative to the first line; a tab is 8 columns), so any re-indentation
+            # of a help line shifts it; that is layout of the text, not "the configuration" the statement is about
+            hlp = "\n".join(x.strip() for x in hlp.split("\n")).strip()
         out.append(
             (
                 kind, name, typ,
@@ -956,6 +959,12 @@ def core_classes(ctx: Ctx, mtext: str, canon_meaning: tuple) -> Tuple[str, List[
         info["reject"] = m0[1]
         return "skip", [], info
     info["reading"] = "canonical" if m0 == canon_meaning else "shifted"
+    if info["reading"] == "shifted":
+        # The whitespace change altered what parser 1 reads (an entry pushed into / a property pulled out of a help text,
+        # a tab inside a quoted string, trailing blanks of a macro value): the file's defects are then not ONLY
+        # indentation / tabs / trailing whitespace, and the documentation exempts "misleading formatting".
+        info["reject"] = "misleading_formatting_changes_parser1_reading"
+        return "skip", [], info
     fails: List[Tuple[tuple, str]] = []
 
     def fail(msg: str, **kw):
@@ -1034,7 +1043,10 @@ def core_classes(ctx: Ctx, mtext: str, canon_meaning: tuple) -> Tuple[str, List[
             # is it the checker's doing, or do the parsers already disagree on the mangled input?
             m20 = ctx.meaning(mtext, 2)
             same_on_input = m20 == m0
-            if m2[0] != "ok":
+            if not same_on_input:
+                # the two parsers already disagree on the INPUT: property C04's business, not kconfcheck's doing
+                info["parsers_disagree_on_input"] = True
+            elif m2[0] != "ok":
                 fail(f"the fixed point is rejected by parser 2 ({m2[1]} at {m2[2]}); parser 2 on the mangled input: {m20[0]}", kind="result_rejected_by_parser2", exc=m2[1], parsers_agree_on_input=same_on_input)
             else:
                 fld = dump_diff(m1[1], m2[1])
@@ -1052,6 +1064,8 @@ def evaluate(ctx: Ctx, r: common.Result, lines: List[str], labels: List[str], op
     r.evals += 1
     r.count(f"passes_{info['passes']}")
     r.count("reading_" + info["reading"])
+    if info.get("parsers_disagree_on_input"):
+        r.count("parsers_disagree_on_mangled_input(C04)")
     if info.get("restored"):
         r.count("shifted_reading_restored_to_canonical")
     fixed = info.get("fixed")
